@@ -168,6 +168,7 @@ def verify(rep, prop, fn, spec, timeout=60000, B=2, backend='z3-qf(typed-instant
                 # over a small domain): without a natively failing input it is not reported as a refutation
                 o.status = core.UNKNOWN; o.detail = f'not proved; bounded-scope model of the VC {mv}; no natively failing input found'
         out.append(o); rep.add(o)
+    core.oracle_selfcheck(rep, fn, fallback, all(o.status == core.PROVED for o in out))
     return out
 
 def mutant_fails(fn, spec, timeout=20000, only=None, canary=True):
